@@ -19,7 +19,7 @@ from pyvc.contracts import FnContract, LoopSpec, Raises
 from pyvc.values import VBool, VExt, VFunc, VInt, VSeq, VUnk, ext_sort
 from pyvc.verify import p_ext, p_obj, p_int, p_real, p_opt, p_str
 from pyvc import ops
-from pyvc.values import NONE, fresh_name
+from pyvc.values import NONE, VNoneT, fresh_name
 from contracts import common
 
 ZB = "sharepoint2text/parsing/extractors/util/zip_bomb.py"
@@ -589,6 +589,132 @@ class C11Executor(_verify.Executor):
             if v is not None:
                 return [(st, v)]
         return super().e_Name(n, st)
+
+    # -- round 6: a plain class of the guard module (no decorators, no bases but `object`, no metaclass, no `__new__` /
+    #    attribute hooks, class body = docstring, methods and constant attributes) is instantiated as the heap object it is:
+    #    class-level constants, then the REAL `__init__` body inlined.  Used as a context manager (`__enter__` and `__exit__`
+    #    both defined in the class body) the `with` statement runs the real protocol: `__enter__()`, body, `__exit__(type, exc,
+    #    tb)` on every way out of the body (None x 3 on the non-exceptional ones), an exception of the body is swallowed iff
+    #    the value `__exit__` returned is true, an exception of `__exit__` replaces it.  Any other shape: the engine decides.
+    def _plain_class(self, name):
+        import ast as _ast
+        cls = self.module.classes.get(name)
+        if cls is None or cls.decorator_list or cls.keywords or self.uni.known(name) or ("new", name) in self.reg.ext_models:
+            return None
+        if any(not (isinstance(b, _ast.Name) and b.id == "object") for b in cls.bases):
+            return None
+        consts = {}
+        for n in cls.body:
+            if isinstance(n, _ast.Expr) and isinstance(n.value, _ast.Constant):
+                continue
+            if isinstance(n, _ast.Pass):
+                continue
+            if isinstance(n, _ast.FunctionDef):
+                if n.decorator_list or n.name in ("__new__", "__setattr__", "__getattr__", "__getattribute__", "__delattr__",
+                                                  "__init_subclass__", "__set_name__", "__class_getitem__", "__bool__", "__len__", "__eq__"):
+                    return None
+                if n.name in consts:
+                    return None
+                continue
+            if isinstance(n, _ast.AnnAssign) and isinstance(n.target, _ast.Name) and n.value is None:
+                continue
+            tgt = n.targets[0] if isinstance(n, _ast.Assign) and len(n.targets) == 1 else getattr(n, "target", None) if isinstance(n, _ast.AnnAssign) else None
+            if isinstance(tgt, _ast.Name) and isinstance(n.value, _ast.Constant) and tgt.id != "__slots__":
+                consts[tgt.id] = n.value.value
+                continue
+            if isinstance(tgt, _ast.Name) and tgt.id == "__slots__":
+                continue
+            return None
+        names = [n.name for n in cls.body if isinstance(n, _ast.FunctionDef)]
+        if len(set(names)) != len(names) or set(names) & set(consts):
+            return None
+        return cls, consts
+
+    def construct(self, st, t, args, kwargs, node):
+        try:
+            pc = self._plain_class(t.name)
+        except Exception:  # noqa -- not a shape read here: the engine decides
+            pc = None
+        if pc is None:
+            return super().construct(st, t, args, kwargs, node)
+        cls, consts = pc
+        obj = self.new_obj(st, t.name, {k: ops.lift(v) for k, v in consts.items()})
+        if f"{t.name}.__init__" not in self.module.functions:
+            if args or kwargs:
+                self.raise_in(st, self.mk_exc("TypeError"))
+                return []
+            return [(st, obj)]
+        out = []
+        for (s2, rv) in self.obj_method(st, obj, "__init__", list(args), dict(kwargs), node):
+            if isinstance(rv, VNoneT):
+                out.append((s2, obj))
+            else:
+                self.raise_in(s2, self.mk_exc("TypeError"))       # __init__() should return None
+        return out
+
+    def _class_cm(self, item, st):
+        """The with-item's manager is an instance of a plain class of this module that defines the protocol itself: decided
+        before anything is evaluated (constructor call by name, or a local bound to such an object)."""
+        import ast as _ast
+        from pyvc.values import VRef
+        e = item.context_expr
+        name = None
+        if isinstance(e, _ast.Call) and isinstance(e.func, _ast.Name) and st.lookup(e.func.id) is None:
+            name = e.func.id
+        elif isinstance(e, _ast.Name):
+            v = st.lookup(e.id)
+            if isinstance(v, VRef) and v.ref in st.heap and st.obj(v.ref).kind == "obj":
+                name = st.obj(v.ref).cls
+        if name is None or self._plain_class(name) is None:
+            return None
+        fns = self.module.functions
+        if f"{name}.__enter__" not in fns or f"{name}.__exit__" not in fns:
+            return None
+        if self.reg.get(f"{self.module.rel}::{name}.__enter__") is not None or self.reg.get(f"{self.module.rel}::{name}.__exit__") is not None:
+            return None
+        return name
+
+    def s_With(self, s, st):
+        import ast as _ast
+        from pyvc.symex import Outcome
+        from pyvc.values import VRef, VExc
+        try:
+            hit = [self._class_cm(it, st) for it in s.items]
+        except Exception:  # noqa -- not a shape read here: the engine decides
+            hit = [None]
+        if not any(hit) or any(getattr(it, "is_async", False) for it in s.items):
+            return super().s_With(s, st)
+        if len(s.items) > 1:          # `with A, B: body` is `with A: with B: body`
+            inner = _ast.With(items=list(s.items[1:]), body=list(s.body), type_comment=None)
+            _ast.copy_location(inner, s)
+            outer = _ast.With(items=[s.items[0]], body=[inner], type_comment=None)
+            _ast.copy_location(outer, s)
+            return self.s_With(outer, st)
+        item = s.items[0]
+        outs = []
+        for (s2, cm) in self.ev(item.context_expr, st):
+            if not (isinstance(cm, VRef) and s2.obj(cm.ref).kind == "obj" and s2.obj(cm.ref).cls == hit[0]):
+                self.unsupported(item.context_expr, "context manager is not the instance its constructor call announced")
+            for (s3, val) in self.obj_method(s2, cm, "__enter__", [], {}, item.context_expr):
+                starts = self.assign(item.optional_vars, val, s3) if item.optional_vars is not None else [s3]
+                for s4 in starts:
+                    for o in self.exec_block(s.body, s4):
+                        prev = o.st.cur_exc
+                        if o.kind == "raise" and isinstance(o.val, VExc):
+                            eargs = [VExt("ExcType"), o.val, VExt("Traceback")]
+                            o.st.cur_exc = o.val
+                        elif o.kind == "raise":
+                            self.unsupported(s, "exception value of the with body is not an exception object")
+                        else:
+                            eargs = [NONE, NONE, NONE]
+                        for (s5, rv) in self.obj_method(o.st, cm, "__exit__", eargs, {}, item.context_expr):
+                            if o.kind != "raise":
+                                outs.append(Outcome(o.kind, s5, o.val))
+                                continue
+                            s5.cur_exc = prev
+                            for (s6, swallowed) in self.fork_truth(s5, rv):
+                                outs.append(Outcome("fall", s6) if swallowed else Outcome("raise", s6, o.val))
+        return outs
 
     def mutated_refs(self, stmts, st):
         refs = super().mutated_refs(stmts, st)
